@@ -1172,7 +1172,8 @@ func (m *OrderedMap) Iterator(comparator ValueComparator, hip HashInputProvider)
 
 	key, err := keyStorable.StoredValue(m.Storage)
 	if err != nil {
-		return nil, err
+		// Wrap err as external error (if needed) because err is returned by Storable interface.
+		return nil, wrapErrorfAsExternalErrorIfNeeded(err, "failed to get map key's stored value")
 	}
 
 	return &mutableMapIterator{
